@@ -154,8 +154,9 @@ def enable_instruction_hooks(qualnames):
     import dis
     out = {}
     mon.register_callback(TOOL, mon.events.INSTRUCTION, _on_instruction)
+    prefixes = tuple(q[:-1] for q in qualnames if q.endswith("*"))
     for co, (qn, first, fn) in S.codes.items():
-        if qn in qualnames:
+        if qn in qualnames or (prefixes and qn.startswith(prefixes)):
             offs = [i.offset for i in dis.get_instructions(co) if i.opname in ("LOAD_ATTR", "STORE_ATTR", "LOAD_METHOD")]
             S.instr_offsets[co] = frozenset(offs)
             out[qn] = offs
